@@ -65,3 +65,8 @@ CHECKS['C04'] = ('exploration',
   'Every step-expression tree up to the operator bound in the four contexts and list positions, every TTC tree up to the bound, all 49 multiplicity form pairs, the product of step / asset / category / association forms, every include layout of a 6-declaration program and both shipped .mar specifications are printed with minimal parentheses and compiled by the real compiler; the result must equal the specification (dict equality incl. list order), layouts must agree.',
   'Trusted: the 150-line unparser (validated by the exact round trip of both malc-produced .mar specifications), ANTLR runtime and generated parser.',
   'DESIGN.md 3/C04')
+CHECKS['C17'] = ('fault_enumeration',
+  'exhaustive single-token fault enumeration (delete / truncate / swap / insert every token type / reserved-word substitution) over 6 base programs, root and included; grammar verdict as oracle',
+  'Every single-token fault of six programs that together use every grammar rule (and every pair of delete/swap x delete/swap/truncate faults of the smallest, thorough tier) is classified by the repository\'s own ANTLR lexer+parser with a counting listener; every text the grammar rejects must make MalCompiler.compile and LanguageGraph.from_mal_spec raise, both as the root file and as a file included by a valid root.',
+  'Trusted: the generated lexer/parser as the definition of the grammar. Texts that stay grammatical are counted and skipped.',
+  'DESIGN.md 3/C17')
